@@ -35,6 +35,9 @@ pub struct Shared {
     pub offered: Vec<usize>,
     pub polls: u64,
     pub elapsing: bool,
+    /// async only, paused clock: a scripted not-ready turn of the write half lasts an hour of (virtual) time instead of no time
+    pub slow: bool,
+    pub nap: Option<Pin<Box<tokio::time::Sleep>>>,
 }
 #[derive(Clone, Debug)]
 pub struct Transport(pub Arc<Mutex<Shared>>);
@@ -104,9 +107,11 @@ impl AsyncWrite for Transport {
     fn poll_write(self: Pin<&mut Self>, cx: &mut Context<'_>, buf: &[u8]) -> Poll<io::Result<usize>> {
         let mut s = self.0.lock().unwrap();
         s.polls += 1;
+        if let Some(n) = s.nap.as_mut() { match std::future::Future::poll(n.as_mut(), cx) { Poll::Pending => return Poll::Pending, Poll::Ready(()) => { s.nap = None; } } }
         match s.wscript.pop_front() {
             None => { s.written.extend_from_slice(buf); s.all_written.extend_from_slice(buf); s.wcalls.push(buf.len()); Poll::Ready(Ok(buf.len())) },
             Some(WEv::Accept(k)) => { let n = (k + 1).min(buf.len()); s.written.extend_from_slice(&buf[..n]); s.all_written.extend_from_slice(&buf[..n]); s.wcalls.push(n); Poll::Ready(Ok(n)) },
+            Some(WEv::Pending) if s.slow => { let mut n = Box::pin(tokio::time::sleep(std::time::Duration::from_secs(3600))); let _ = std::future::Future::poll(n.as_mut(), cx); s.nap = Some(n); Poll::Pending },
             Some(WEv::Pending) => { cx.waker().wake_by_ref(); Poll::Pending },
             Some(WEv::Fail(k)) => Poll::Ready(Err(io::Error::new(KINDS[k as usize], "scripted write failure"))),
         }
